@@ -32,17 +32,16 @@ class FakeTS:
         return "r"
 
 
-def indicator_weights(s0: int, s1: int, s2: int, a: int, b: int, c: int, polarised: bool) -> bool:
+def indicator_weights(alt_ids: bool, m0: bool, m1: bool, m2: bool, k0: bool, k1: bool, k2: bool, polarised: bool) -> bool:
     """
     W[i][k] is 1 exactly when the i-th sample (in samples() order, whatever its node id) belongs to sample set k, and
-    the options are passed through.
-    pre: 0 <= s0 < s1 < s2 <= 4
-    pre: 0 <= a <= 2 and 0 <= b < c <= 2
+    the options are passed through.  Sample ids are not 0..n-1; which samples belong to which set is symbolic.
+    pre: (m0 or m1 or m2) and (k0 or k1 or k2)
     post: _
     """
-    samples = [s0, s1, s2]
-    sets = [[samples[a]], [samples[b], samples[c]]]
-    ts = FakeTS(samples, 5)
+    samples = [0, 2, 5] if alt_ids else [1, 3, 4]
+    sets = [[u for u, m in zip(samples, (m0, m1, m2)) if m], [u for u, m in zip(samples, (k0, k1, k2)) if m]]
+    ts = FakeTS(samples, 6)
     r = ts.sample_count_stat(sets, None, 1, polarised=polarised, mode="branch")
     W, kw = ts.calls[0]
     return (r == "r" and kw.get("polarised") is polarised and kw.get("mode") == "branch"
